@@ -98,6 +98,14 @@ OPS_SWITCH_CASE_MAP = {
     "main_EnterRescueUser": OPS_REGULAR_CASES,
     "main_EnterTraining": OPS_REGULAR_CASES,
     "main_EnterTraining2": OPS_REGULAR_CASES,
+    # (the other operations that the switch writer knows how to print as a switch header)
+    "SwitchDirection": OPS_REGULAR_CASES,
+    "SwitchDirectionLives": OPS_REGULAR_CASES,
+    "SwitchDirectionLives2": OPS_REGULAR_CASES,
+    "SwitchDirectionMark": OPS_REGULAR_CASES,
+    "SwitchLives": OPS_REGULAR_CASES,
+    "SwitchValue": OPS_REGULAR_CASES,
+    "SwitchVariable": OPS_REGULAR_CASES,
 }
 
 OP_MESSAGE_SWITCH_TALK = "message_SwitchTalk"
